@@ -403,7 +403,7 @@ def _single_difference(a, b):
     f, i, p, q = diffs[0]
     # prefer the outermost expression position that still differs in one place below a non-expression
     if isinstance(p, ast.expr) and isinstance(q, ast.expr):
-        deeper = _single_difference(p, q) if type(p) is type(q) and isinstance(p, (ast.Call, ast.Attribute, ast.Subscript, ast.BinOp, ast.Tuple, ast.List, ast.keyword, ast.Starred, ast.JoinedStr, ast.FormattedValue)) else None
+        deeper = _single_difference(p, q) if type(p) is type(q) and isinstance(p, (ast.Call, ast.Attribute, ast.Subscript, ast.BinOp, ast.Tuple, ast.List, ast.keyword, ast.Starred)) else None
         if deeper is not None and isinstance(p, ast.Call) and deeper[1] in ("args", "keywords"):
             return deeper
         if deeper is not None and not isinstance(p, ast.Call):
